@@ -481,9 +481,22 @@ def inline_simple_helpers(fnode, resolve, depth=2):
         locs = {n.id for b in body for n in ast.walk(b)
                 if isinstance(n, ast.Name) and isinstance(n.ctx, ast.Store)}
         mapping = {p_: a for p_, a in zip(params, args)}
+        # a parameter the helper rebinds (`if p is None: p = default`) is a local
+        # that starts as the argument
+        inits = []
+        for p_ in [p_ for p_ in params if p_ in locs]:
+            nm = f"_h{k}_{p_}"
+            inits.append(ast.Assign(targets=[ast.Name(id=nm, ctx=ast.Store())],
+                                    value=copy.deepcopy(mapping[p_])))
+            mapping[p_] = ast.Name(id=nm, ctx=ast.Load())
         for l in locs:
             if l not in mapping:
                 mapping[l] = ast.Name(id=f"_h{k}_{l}", ctx=ast.Load())
+        if inits:
+            for i_ in inits:
+                ast.copy_location(i_, h)
+                ast.fix_missing_locations(i_)
+            body = inits + body
         return body, mapping
 
     def fixloc(nodes, lineno):
@@ -832,3 +845,61 @@ def normalise_enumerate_range(fnode):
                 ast.copy_location(x, n)
             return ast.fix_missing_locations(new)
     return T().visit(copy.deepcopy(fnode))
+
+
+def resolve_default_idiom(fnode):
+    """`x = V` followed (in the same block, x untouched in between) by `if x is
+    None: x = E` is one definition of x: E when V is the literal None, V when V
+    is another literal, `V if V is not None else E` otherwise (the
+    optional-parameter idiom after inlining)."""
+    import copy
+
+    def is_default_if(st):
+        return isinstance(st, ast.If) and not st.orelse and len(st.body) == 1 and \
+            isinstance(st.test, ast.Compare) and len(st.test.ops) == 1 and \
+            isinstance(st.test.ops[0], ast.Is) and isinstance(st.test.left, ast.Name) and \
+            isinstance(st.test.comparators[0], ast.Constant) and \
+            st.test.comparators[0].value is None and \
+            isinstance(st.body[0], ast.Assign) and len(st.body[0].targets) == 1 and \
+            isinstance(st.body[0].targets[0], ast.Name) and \
+            st.body[0].targets[0].id == st.test.left.id
+
+    def fix(stmts):
+        out = []
+        for st in stmts:
+            if is_default_if(st):
+                x = st.test.left.id
+                j = None
+                for k in range(len(out) - 1, -1, -1):
+                    prev = out[k]
+                    writes = {n.id for n in ast.walk(prev) if isinstance(n, ast.Name)
+                              and isinstance(n.ctx, ast.Store)}
+                    if x in writes:
+                        if isinstance(prev, ast.Assign) and len(prev.targets) == 1 and \
+                                isinstance(prev.targets[0], ast.Name):
+                            j = k
+                        break
+                if j is not None:
+                    V, E = out[j].value, st.body[0].value
+                    if isinstance(V, ast.Constant) and V.value is None:
+                        val = E
+                    elif isinstance(V, ast.Constant):
+                        val = V
+                    else:
+                        val = ast.IfExp(
+                            test=ast.Compare(left=copy.deepcopy(V), ops=[ast.IsNot()],
+                                             comparators=[ast.Constant(None)]),
+                            body=copy.deepcopy(V), orelse=E)
+                    new = ast.Assign(targets=[out[j].targets[0]], value=val)
+                    ast.copy_location(new, out[j])
+                    out[j] = ast.fix_missing_locations(new)
+                    continue
+            for fld in ("body", "orelse", "finalbody"):
+                if isinstance(getattr(st, fld, None), list) and \
+                        not isinstance(st, (ast.FunctionDef, ast.ClassDef)):
+                    setattr(st, fld, fix(getattr(st, fld)))
+            out.append(st)
+        return out
+    node = copy.deepcopy(fnode)
+    node.body = fix(node.body)
+    return node
